@@ -276,7 +276,7 @@ func run(prop, tier, repo, verif, rulesF string, noEv, dumpKeys, verbose bool) (
 		ev := Evidence{
 			PropertyID: id, Tier: tier, Seed: seed, Level: "other",
 			Coverage: map[string]interface{}{
-				"explanation":         p.Explanation,
+				"explanation":         fullExplanation(p),
 				"not_decided":         p.NotDecided,
 				"obligations":         n,
 				"discharged":          okc,
